@@ -461,3 +461,60 @@ func init() {
 		return nil
 	})
 }
+
+// ---- strings.Builder / bytes.Buffer writes: content kept in the buf field as boxed bytes ----
+
+func init() {
+	bufOf := func(a []value) (structure, []value) {
+		s := (*a[0].(*value)).(structure)
+		b, _ := s[1].([]value)
+		return s, b
+	}
+	appendStr := func(i *interpreter, a []value, str string) {
+		i.inspectStr(str)
+		s, b := bufOf(a)
+		for k := 0; k < len(str); k++ {
+			b = append(b, str[k])
+		}
+		s[1] = b
+	}
+	registerIntrinsic("(*strings.Builder).WriteString", func(i *interpreter, fr *frame, fn *ssa.Function, a []value) value {
+		str := a[1].(string)
+		appendStr(i, a, str)
+		return tuple{len(str), iface{}}
+	})
+	registerIntrinsic("(*strings.Builder).WriteByte", func(i *interpreter, fr *frame, fn *ssa.Function, a []value) value {
+		s, b := bufOf(a)
+		s[1] = append(b, a[1])
+		return iface{}
+	})
+	registerIntrinsic("(*strings.Builder).WriteRune", func(i *interpreter, fr *frame, fn *ssa.Function, a []value) value {
+		str := string(rune(asInt64(a[1])))
+		appendStr(i, a, str)
+		return tuple{len(str), iface{}}
+	})
+	registerIntrinsic("(*strings.Builder).Write", func(i *interpreter, fr *frame, fn *ssa.Function, a []value) value {
+		s, b := bufOf(a)
+		p := a[1].([]value)
+		s[1] = append(b, p...)
+		return tuple{len(p), iface{}}
+	})
+	registerIntrinsic("(*strings.Builder).String", func(i *interpreter, fr *frame, fn *ssa.Function, a []value) value {
+		_, b := bufOf(a)
+		out := make([]byte, len(b))
+		for k := range b {
+			out[k] = b[k].(uint8)
+		}
+		return string(out)
+	})
+	registerIntrinsic("(*strings.Builder).Len", func(i *interpreter, fr *frame, fn *ssa.Function, a []value) value {
+		_, b := bufOf(a)
+		return len(b)
+	})
+	registerIntrinsic("(*strings.Builder).Reset", func(i *interpreter, fr *frame, fn *ssa.Function, a []value) value {
+		s, _ := bufOf(a)
+		s[1] = []value(nil)
+		return nil
+	})
+	registerIntrinsic("(*strings.Builder).Grow", nop)
+}
